@@ -1,4 +1,5 @@
 // Family "lrcow": lr_guarded (C03, C14-lr, C20-lr) and cow_guarded (C04, C14-cow).
+#define VRT_EXTRA_MODEL_HEADER "../vrt/model_shared_ptr.hpp"      // cow_guarded's committed-value slots are race-checked shared_ptr objects
 #include "common.hpp"
 
 namespace {
